@@ -125,11 +125,16 @@ class Check:
         return ws
 
     # ------------------------------------------------------------------ TLC: trace validation
-    def validate(self, obs_module, traces, label='obs', timeout=3000, chunk=8000, parallel=4):
+    def validate(self, obs_module, traces, label='obs', timeout=3000, chunk=8000, parallel=4, spec='Spec', consts=None):
         """traces: list of event lists recorded from the real code.  Returns [(index, clause, pos)]"""
         from concurrent.futures import ThreadPoolExecutor
         cfg = os.path.join(self.tmp, 'obs_%s.cfg' % label)
-        tlc.write_cfg(cfg, 'Spec', {}, invariants=['Report'])
+        tlc.write_cfg(cfg, spec, {}, invariants=['Report'])
+        if consts:
+            with open(cfg) as fh:
+                text = fh.read()
+            with open(cfg, 'w') as fh:
+                fh.write(text.replace('SPECIFICATION %s\n' % spec, 'SPECIFICATION %s\nCONSTANTS\n%s\n' % (spec, '\n'.join('  %s = %s' % (k, tlc.tla_value(v)) for k, v in consts.items()))))
 
         # chunks of at most `chunk` traces and roughly 30 MB of JSON (TLC's Json module fails on very large files);
         # the size per trace is estimated from a sample
